@@ -96,6 +96,16 @@ def shapes(tier, seed):
         for n in (0, 1, 3):
             add(node, p, {"X": n}, decl="loose")
             add(node, p, {"X": n})
+    # selection by membership in an integer range: a box of (start, stop, step) including descending, empty and unaligned ranges
+    vals = (-4, -1, 0, 1, 2, 5, 6) if tier == "quick" else tuple(range(-6, 8))
+    steps = (1, 2, 3, 4, -1, -2, -3, -4) if tier == "quick" else tuple(s for s in range(-5, 6) if s)
+    for start in vals:
+        for stop in vals:
+            for step in steps:
+                add(("sel", X, ("inrange", ("ref", "a"), start, stop, step)), templates.P(), {"X": 1}, tag="range")
+    for (start, stop, step) in ((6, 0, -4), (1, 8, 3), (0, -7, -3), (5, 5, 1)):
+        add(("sel", X, ("not", ("inrange", ("add", ("ref", "a"), ("ref", "b")), start, stop, step))), templates.P(), {"X": 3}, tag="range")
+        add(("calc", ("sel", X, ("inrange", ("neg", ("ref", "a")), start, stop, step)), "d", ("add", ("ref", "a"), ("ref", "b"))), templates.P(), {"X": 2}, tag="range")
     if tier == "thorough":
         for labs, node, p in templates.unary_sequences(X, LEAFCOLS, 4, "full", slice_hi=hi,
                                                        labels=("slice s:e", "sort b,-a", "sel a>k", "dedup", "proj -a")):
